@@ -16,7 +16,12 @@ use serde::de::DeserializeOwned;
 use serde::Serialize;
 use serde_json::{json, Value};
 
-pub const VERIF_DIR: &str = "/verif";
+/// Root for evidence/, replays/, regress/, known_findings.json. `VCHECK_DIR` overrides it (used
+/// only by the mutant runner, which works on a scratch copy so that /verif's evidence stays
+/// that of the real tree).
+pub fn verif_dir() -> PathBuf {
+    PathBuf::from(std::env::var("VCHECK_DIR").unwrap_or_else(|_| "/verif".to_string()))
+}
 
 #[derive(Clone, Copy, Debug, PartialEq, Eq)]
 pub enum Tier {
@@ -189,7 +194,7 @@ pub struct KnownFindings {
 
 impl KnownFindings {
     pub fn load() -> Self {
-        let p = Path::new(VERIF_DIR).join("known_findings.json");
+        let p = verif_dir().join("known_findings.json");
         match std::fs::read_to_string(&p) {
             Ok(s) => {
                 #[derive(serde::Deserialize)]
@@ -320,7 +325,7 @@ impl Ctx {
         T: Serialize + DeserializeOwned + Debug + Clone,
         F: Fn(&T) -> CaseResult,
     {
-        let dir = Path::new(VERIF_DIR).join("regress").join(self.property);
+        let dir = verif_dir().join("regress").join(self.property);
         let mut files: Vec<PathBuf> = match std::fs::read_dir(&dir) {
             Ok(rd) => rd
                 .filter_map(|e| e.ok().map(|e| e.path()))
@@ -826,7 +831,7 @@ impl Ctx {
             "violations": violations,
         });
         let _ = any_exhaustive;
-        let dir = Path::new(VERIF_DIR).join("evidence");
+        let dir = verif_dir().join("evidence");
         let _ = std::fs::create_dir_all(&dir);
         let path = dir.join(format!("{}.json", self.property));
         if let Err(e) = std::fs::write(&path, serde_json::to_string_pretty(&evidence).unwrap()) {
@@ -841,7 +846,7 @@ impl Ctx {
         let mut code = 0;
         for r in &self.reports {
             if let Some(fail) = &r.failure {
-                let replay_dir = Path::new(VERIF_DIR).join("replays").join(self.property);
+                let replay_dir = verif_dir().join("replays").join(self.property);
                 let _ = std::fs::create_dir_all(&replay_dir);
                 let fp = fingerprint(&fail.case);
                 let sub_clean: String = r
